@@ -278,12 +278,70 @@ def r13_3(chk, P, K):
                                     return True
                 return False
             path = cfg.reaches_exit_avoiding(F, F.pos[c], settles)
+            via = ''
+            if path is not None and F.static and base['k'] == 'ref' and base['decl'].get('kind') == 'param':
+                # a file-local helper may leave the pointer behind when every caller goes on to wipe / free / release the
+                # object it passed (the release function that was split into helpers)
+                pidx = next((i for i, p_ in enumerate(F.params) if p_['id'] == base['decl'].get('id')), None)
+                sites = [(G, cc) for G in P.functions() for cc in G.calls(F.name) if P.get(F.name, G) is F]
+                if pidx is not None and sites and not _address_taken(P, F):
+                    if all(_caller_settles(P, G, cc, pidx) for (G, cc) in sites):
+                        path = None
+                        via = f' (by each of the {len(sites)} callers of this file-local helper, after the call)'
             same = [x for x in sorted(F.calls(d), key=lambda x: F.ex[x]['loc']) if root_member(F, F.ex[x].get('c', [0])[0]) == (rec, fld)] if d else [c]
             chk.ob('R13.3', k, f'reset-after-free:{rec}.{fld}#{same.index(c) if c in same else 0}', path is None, F.where(c),
-                   'the field is re-assigned or its object wiped/freed on every path to the exit' if path is None else
+                   'the field is re-assigned or its object wiped/freed on every path to the exit' + via if path is None else
                    f'{F.s(a0)} is freed and the function can return with the stale pointer still in the field',
                    path=cfg.block_lines(F, path) if path else None)
     return n
+
+
+def _address_taken(P, F):
+    for G in P.functions():
+        for n, nd in G.ex.items():
+            if nd['k'] == 'ref' and nd['decl'].get('kind') == 'fn' and nd['decl'].get('name') == F.name and P.get(F.name, G) is F:
+                p_ = G.sparent.get(n)
+                if not (p_ and G.ex[p_]['k'] == 'call' and G.ex[p_].get('fnexpr') == n):
+                    return True
+    return False
+
+
+def _caller_settles(P, G, cc, pidx, depth=0):
+    """after call cc in G, is the object passed as argument pidx wiped / freed / released on every path to G's exit?"""
+    args = G.ex[cc].get('c', [])
+    if pidx >= len(args):
+        return False
+    actual = G.ex[G.strip_casts(args[pidx])]
+
+    def settles(nn):
+        x = G.ex[nn]
+        if x['k'] != 'call':
+            return False
+        dd = x['callee'].get('d')
+        if not (dd in ('memset', 'free') or dd in k6.ALL_RELEASE):
+            return False
+        aa = x.get('c', [])
+        if not aa:
+            return False
+        r0 = G.ex[G.strip_casts(aa[0])]
+        if r0['k'] == 'un' and r0['op'] == '&':
+            r0 = G.ex[G.strip_casts(r0['c'][0])]
+        if r0['k'] != 'ref' or r0['decl'].get('kind') not in ('var', 'param'):
+            return False
+        if _contains(G, actual, r0):
+            return True
+        if actual['k'] == 'ref' and actual['decl'].get('kind') == 'var':
+            dv = common.single_defs(G).get(actual['decl']['id'])
+            if dv is not None and _contains(G, G.ex[G.strip_casts(dv)], r0):
+                return True
+        return False
+    if cfg.reaches_exit_avoiding(G, G.pos[cc], settles) is None:
+        return True
+    if depth < 2 and G.static and actual['k'] == 'ref' and actual['decl'].get('kind') == 'param' and not _address_taken(P, G):
+        pj = next((i for i, p_ in enumerate(G.params) if p_['id'] == actual['decl'].get('id')), None)
+        sites = [(H, c2) for H in P.functions() for c2 in H.calls(G.name) if P.get(G.name, H) is G]
+        return pj is not None and bool(sites) and all(_caller_settles(P, H, c2, pj, depth + 1) for (H, c2) in sites)
+    return False
 
 
 def _contains(F, base, obj):
@@ -329,7 +387,7 @@ def r13_4(chk, P, K, res):
             rec, fld = b['record'], b['field']
             if (rec, fld) not in {tuple(s) for s in res[k].get('sinks', ())}:
                 continue
-            idx = F.strip_casts(l['c'][1])
+            idx = common.alias_of(F, l['c'][1], e)
             itxt = F.s(idx)
             slot = sk.canon(F, F.strip_casts(nd['c'][0]))
             slotx = common.canon_x(F, F.strip_casts(nd['c'][0]), sk, depth=1).replace('<', '').replace('>', '')
@@ -494,7 +552,7 @@ def r13_8(chk, P, K, res):
             csym = f'{crec}.{cfld}'
             nd = F.ex[e]
             l = F.ex[F.strip_casts(nd['c'][0])]
-            idx = F.strip_casts(l['c'][1])
+            idx = common.alias_of(F, l['c'][1], e)
             itxt = F.s(idx)
             v = vals.get(e)
             ok = v is not None and csym in v.lt
@@ -722,7 +780,7 @@ def r13_6(chk, P, K):
     chk.require(frees, 'vorbis_staticbook_destroy no longer frees anything')
     for i, c in enumerate(sorted(frees, key=lambda x: D.ex[x]['loc'])):
         conds = common.controlling_conditions(D, c)
-        ok = any(pol and common.cond_mentions_field(D, cnd, 'static_codebook', 'allocedp') for cnd, pol in conds)
+        ok = any(pol and common.cond_mentions_field(D, cnd, 'static_codebook', 'allocedp') for cnd, pol in common.atomic_conditions(D, c))
         chk.ob('R13.6', D.name, f'free#{i}-under-allocedp', ok, D.where(c), f'{D.s(c)} controlled by {[D.s(x) for x, p in conds]}')
     setters = []
     for F in P.functions():
